@@ -49,6 +49,8 @@ This is round {rnd}: all of the changes listed above were eventually detected. A
 
 ALSO (separately from your two changes): while reading and probing, note any input for which the CLEAN, unmodified tree already fails the property as stated (a crash, a wrong result, an unreported error, an outcome that varies from run to run). Report up to three such observations at the end under the heading CLEAN-TREE OBSERVATIONS, each with the exact input (module texts / calls) and the exact output you saw when you ran it on the clean tree; only report what you actually ran. Do not build your two changes on them.
 
+ALREADY KNOWN about the clean tree (do not report these again, and do not build on them): (1) nesting of a million levels and more overflows the goroutine stack in the parser and in the tree builder; (2) with two revisions of a module that both include one submodule, only the latest revision's tree gets the submodule's nodes, and a submodule "belongs to" the latest revision of its module; (3) a module without a revision statement is rejected as a duplicate when loaded after a same-named module with a revision, and silently shadowed in the other order; (4) Entry.Find ignores the prefixes of all path steps but the first; (5) deviate delete of min-elements 0 / max-elements unbounded on a list that states no such bound is accepted; (6) an unknown statement that is a required field of the other module kind (belongs-to in a module) is reported at the module statement's position; (7) refine and uses-augment are parsed and not applied; re-listing enum members in a derived type replaces the list; number literals are read with Go base-0 syntax (0x10, 010, 1_0, +5); a nested include (a submodule included only by another submodule) contributes groupings but not typedefs or identities to the module; reads (ToEntry, Find that creates an absent rpc input/output, ToEntry of a synthetic case node) that build or create entries are not safe to run concurrently.
+
 Final answer: for each change, the one-sentence summary, what it needs to manifest, and the exact output lines showing suite-pass + demo-fail with the change and demo-pass without it. If you could only produce one valid change, say so plainly.
 """
     open(f'{wt}/TASK.md', 'w').write(text)
